@@ -56,6 +56,35 @@ def codec_of(prog, R, role):
     return None
 
 
+def sizer_components(prog, sizer):
+    """The size estimate's result, by meaning instead of by position: {"S": (projection, canon)} the length of the size
+    field (`encoded_len((payload + 7) / 8)` or a fixed width) and {"P": ...} the payload length (the component that is a
+    sum of >= 2 terms).  Works for a tuple in any order and for a small struct.  None if not recognisable."""
+    cn = k7.Canon(prog, sizer)
+    rb = sizer.return_blocks()
+    if not rb:
+        return None
+    os_ = tracer(prog, sizer).place({"l": 0, "p": []}, at=rb[0])
+    aggs = [o for o in os_ if o.kind == "agg" and not o.proj]
+    if len(aggs) != 1 or len(os_) != 1:
+        return None
+    a = aggs[0].data
+    if a.get("agg") == "tuple":
+        names = ["f:%d" % i for i in range(len(a["ops"]))]
+    elif a.get("agg") == "adt" and a.get("fields"):
+        names = ["f:%s.%s" % (a["adt"].rsplit("::", 1)[-1], f) for f in a["fields"]]
+    else:
+        return None
+    comps = [(nm, cn.op(op, aggs[0].block)) for nm, op in zip(names, a["ops"])]
+    P = [(nm, c) for nm, c in comps if len(flatten_add(c)) >= 2]
+    if len(P) != 1:
+        return None
+    S = [(nm, c) for nm, c in comps if nm != P[0][0] and (c[0] == "c" or (c[0] == "call" and c[1].endswith("encoded_len") and c[2] and c[2][0][0] == "bin"))]
+    if len(S) != 1:
+        return None
+    return {"S": S[0], "P": P[0]}
+
+
 def _check_own(ctx):
     prog = ctx.prog
     from . import vu64dec
@@ -75,7 +104,8 @@ def _check_own(ctx):
         def comp(i):
             os_ = t0.place({"l": 0, "p": ["f:%d" % i]}, at=at)
             return cn_s.from_origins(os_, {"k": "cp", "pl": {"l": 0, "p": []}}, at, 0) if len(os_) == 1 else ("?",)
-        size_field, payload = comp(0), comp(1)
+        sc = sizer_components(prog, sizer)
+        size_field, payload = (sc["S"][1], sc["P"][1]) if sc else (comp(0), comp(1))
         summands = flatten_add(payload)
         ctx.check(payload[0] != "?" and len(summands) >= 2, "sizer-covers-writer", kind + ":estimate-shape",
                   "cannot read the %s size estimate as a sum (%s)" % (kind, k7.expr_str(payload)), where=where(sizer))
